@@ -23,14 +23,15 @@ PROPS = {
     },
 }
 
-_PARSE_NOTE = "assumed: vstd specs (Vec, Seq, Option, IteratorSpec prophecy model); dependency stubs DecodedChar/Span/Meta/SmallVec/SmallString/NumberBuf::new_unchecked (contracts read off their sources); char::to_digit / char::from_u32 / char ordering (std contracts); Option::transpose; derived Default of CodeMap; usize is 64-bit; total input byte length fits usize. Composition of the fragment parsers in Value::parse_in (L3) and the entry-point adapters (L4) are not yet under contract."
+_PARSE_NOTE = "assumed: vstd specs (Vec, Seq, Option, IteratorSpec prophecy model); dependency stubs DecodedChar/Span/Meta/SmallVec/SmallString/NumberBuf::new_unchecked (contracts read off their sources; DecodedChar and Span discharged by Kani); Object::new/push (contract proved in unit object); char::to_digit / char::from_u32 (std contracts, discharged by Kani) / char ordering; Option::transpose; derived Default of CodeMap; usize is 64-bit; total input byte length fits usize. NOT proved: termination of the main loop of Value::parse_in (vstd's iterator measure is unconstrained after end of input; bounded stand-in), the adapter entry points parse_str/parse_slice/parse_utf8*/parse_infallible* (iterator adapters outside Verus; bounded stand-in compares all of them with parse_with)."
+_DOC = " End to end: Value::parse_in is proved (explicit-stack machine vs the recursive-descent specification `doc` = RFC 8259 `ws value ws`, by the inductive lemmas lemma_run_array / lemma_run_object) to return exactly the denoted value, fragment index and code map, or the specified error, for every input stream and option record; Value::parse / parse_with are proved to be `doc` on the whole input from byte 0 with an empty code map."
 for _pid, _title, _text in [
-    ("C01", "Strict acceptance", "Unbounded proof per lexical/structural fragment parser that it accepts exactly the RFC 8259 production it implements (literals, number automaton, string grammar, begin/end/separator fragments), for every input stream and every option record."),
-    ("C02", "Faithful decoding", "Unbounded proof that the number parser keeps the consumed characters byte for byte (all ASCII), that parse_hex4 computes the code unit, and that the string parser returns exactly the RFC 8259 section 7 decoding (escapes, surrogate pairs) of the consumed text."),
-    ("C03", "Totality, single pass", "Side obligations of the same proofs: no panic (end_fragment index valid, unwrap safe), no arithmetic overflow, every loop of the lexical layer terminates, the stream is only ever advanced (rest() shrinks by skip), no recursion in the extracted parser functions."),
-    ("C05", "Code map", "Unbounded proof of the fragment discipline: begin_fragment reserves exactly one entry at the current byte, end_fragment(i) closes entry i with span end = current byte and volume = entries since i; every leaf parser appends exactly one closed entry spanning its significant characters."),
-    ("C07", "Error positions", "The Err branch of every contract: Unexpected carries the byte offset and character of the first item that cannot continue the production; stream errors carry the offset of the bad item; surrogate errors carry the code units and a span inside the offending escapes."),
-    ("C12", "Lenient options", "SmallString::parse_in is proved equal to the option-parametric decoder str_run for all four option records; every other contract is stated for arbitrary options and ensures options are untouched (frame)."),
+    ("C01", "Strict acceptance", "Unbounded proof that every lexical/structural fragment parser accepts exactly the RFC 8259 production it implements (literals, number automaton, string grammar, begin/end/separator fragments), for every input stream and every option record." + _DOC),
+    ("C02", "Faithful decoding", "Unbounded proof that the number parser keeps the consumed characters byte for byte (all ASCII), that parse_hex4 computes the code unit, that the string parser returns exactly the RFC 8259 section 7 decoding (escapes, surrogate pairs), and that arrays/objects are built from their items/members in document order with duplicates kept." + _DOC),
+    ("C03", "Totality, single pass", "Side obligations of the same proofs: no panic (end_fragment index valid, unwrap safe), no arithmetic overflow, every loop of the lexical layer terminates, the stream is only ever advanced (rest() shrinks by skip), no recursion in the extracted parser functions; Value::parse_in returns a value only at end of input."),
+    ("C05", "Code map", "Unbounded proof of the fragment discipline: begin_fragment reserves exactly one entry at the current byte, end_fragment(i) closes entry i with span end = current byte and volume = entries since i; every leaf parser appends exactly one closed entry spanning its significant characters; containers and object members are closed at their last byte with the volume of their sub-tree." + _DOC),
+    ("C07", "Error positions", "The Err branch of every contract: Unexpected carries the byte offset and character of the first item that cannot continue the production; stream errors carry the offset of the bad item; surrogate errors carry the code units and a span inside the offending escapes." + _DOC),
+    ("C12", "Lenient options", "SmallString::parse_in is proved equal to the option-parametric decoder str_run for all four option records; every other contract is stated for arbitrary options and ensures options are untouched (frame)." + _DOC),
 ]:
     PROPS[_pid] = {"units": ["parse"], "kani": [], "replay": [], "title": _title, "level": "proof", "level_text": _text, "level_note": _PARSE_NOTE, "design_ref": "DESIGN.md §6.1"}
 
